@@ -58,8 +58,8 @@ def run(repo, chk):
     computes = [n for n in ast.walk(loop) if isinstance(n, ast.Assign) and len(n.targets) == 1 and is_name(n.targets[0], str(fitvar)) and norm(n.value) == f"fits_selector({P.fn}, {sel})"]
     stores = [n for n in ast.walk(pr.node) if isinstance(n, (ast.Assign, ast.AugAssign)) and any(norm(t).startswith("_selector_fit_cache[") for t in (n.targets if isinstance(n, ast.Assign) else [n.target]))]
     ok = len(gets) == 1 and len(computes) == 1 and conds(computes[0], loop) == [f"{fitvar} is None"] and order(gets[0]) < order(computes[0]) \
-        and all(isinstance(n, ast.Assign) and expand(n.targets[0], pr.node) == f"_selector_fit_cache[{P.fn}, {sel}]" and norm(n.value) == fitvar and order(n) > order(computes[0])
-                and conds(n, loop) == [f"{fitvar} is None"] for n in stores)
+        and all(isinstance(n, ast.Assign) and expand(n.targets[0], pr.node) == f"_selector_fit_cache[{P.fn}, {sel}]" and norm(n.value) == fitvar and conds(n, loop) == [f"{fitvar} is None"] for n in stores)
+    # (a store placed before the computation writes the None it just read: the same as no store -- every later lookup is a miss)
     chk.ob("R03.3", "overlay.HandlerCollection.proceed:memo", ok, pr.where,
            "the fit is looked up per (function, selector); a miss (None) is computed by fits_selector (and, if stored, stored under the same key), False means 'does not fit'")
     fs = repo.func("overlay.fits_selector")
